@@ -254,7 +254,8 @@ def explore(case, limit=None):
 def run_case(case, choices, default="P"):
     return S.run_schedule(case["reader"], case["start"], case["end"], case["cap"], case["batch"], case["fault"],
                           choices, default=default, fault_in_image=case.get("fault_in_image", False),
-                          defaults=case.get("defaults", False), instances_key=case.get("instances_key", False))
+                          defaults=case.get("defaults", False), instances_key=case.get("instances_key", False),
+                          yield_point=case.get("yield_point", False))
 
 
 def exhaustive_configs(tier):
@@ -281,6 +282,13 @@ def exhaustive_configs(tier):
                                  fault=None if fault is None else fault - 2))
     for n in (0, 2):
         cfgs.append(dict(reader="video", start=0, end=n, cap=1, batch=2, fault=None, defaults=True))
+    # the hand-over of each yielded batch as an additional scheduling point (slow caller of the generator)
+    for n in range(1, 4 if tier == "quick" else 5):
+        for cap in (1, 2):
+            for batch in (1, 2):
+                for fault in [None] + list(range(n)):
+                    cfgs.append(dict(reader="video", start=0, end=n, cap=cap, batch=batch, fault=fault,
+                                     yield_point=True))
     # faults outside the range never trigger; inverted range behaves like an empty one
     cfgs.append(dict(reader="video", start=2, end=4, cap=1, batch=1, fault=1))
     cfgs.append(dict(reader="video", start=2, end=4, cap=1, batch=3, fault=4))
@@ -329,6 +337,8 @@ def sampled_cases(rng, tier):
         case = dict(reader=reader, start=start, end=start + n, cap=cap, batch=batch, fault=fault, fault_in_image=fim)
         if reader == "labels" and rng.random() < 0.4:
             case["instances_key"] = True
+        if rng.random() < 0.5:
+            case["yield_point"] = True
         out.append((case, w, rng.choice("PC")))
     return out
 
